@@ -252,4 +252,7 @@ def gen(tier, rng, boost=1):
     for T in ALL_TARGETS:
         ops += reads(rng, T, b"", allpol=True)
         ops += reads(rng, T, b"\xC1" + TAIL, allpol=True)
+    # typed map keys: the comparison of a key read in ANY integer format with a key requested as any C++ integer type
+    from .C03 import keyeq_ops
+    ops += keyeq_ops(tier, rng)
     return ops
